@@ -20,7 +20,8 @@ CLAIMED = {
        + " Further rules: (FALLBACK) the uncompressed-chunk fallback of the LZMA2 encoder is entered exactly on the documented condition and resets state afterwards."
        + " (DICTROUND) dictionary-size rounding smear has every distance except 1; (BOUND) lzma2_bound in normal form n + 3*ceil(n/65536) + 1; SHA-256 structure rules of C14."
        + ' (DICTDECL) the match-finder window is derived from the declared dictionary size only.'
-       + ' (REWIND) single-call coders restore the position on every error return; (UPD) as in C12.',
+       + ' (REWIND) single-call coders restore the position on every error return; (UPD) as in C12.'
+       + ' (WINDOW, READFIRST) as in C01/C06.',
   technique="layout-fact extraction and comparison (encoder vs decoder vs spec), expression evaluation on sample values, finite-domain evaluation",
   ref="4/C02"),
  "C14": dict(
@@ -31,7 +32,8 @@ CLAIMED = {
        "basis vectors, Ch/Maj by truth table; schedule indices, 16+3x16 round structure, big-endian load and length; dispatch "
        "wiring of CRC resolvers and check.c. The CLMUL data path and the slice-by-N loops as functions of all inputs are NOT "
        "decided. Also (MASKW) no 64-bit size/address is ANDed with a mask complemented in 32 bits; (PATH) the alignment prologue of the generic CRCs cannot consume more than the size guard leaves, lzma_sha256_update recomputes the buffer offset per piece."
-       + " Further rules: SHA-256 padding: finite-domain evaluation of lzma_sha256_finish for all 64 residues: an extra block is processed iff the residue is >= 56.",
+       + " Further rules: SHA-256 padding: finite-domain evaluation of lzma_sha256_finish for all 64 residues: an extra block is processed iff the residue is >= 56."
+       + ' (FLOW) the Block coders update the check on every continuing path and finish it once; SHA length counter is 64-bit.',
   technique="table comparison against independently computed definitions; GF(2)-linear and truth-table evaluation of macro-expanded expression trees",
   ref="4/C14"),
  "C01": dict(
@@ -50,7 +52,8 @@ CLAIMED = {
        + " Further rules: (ORDER) lzma_lzma_encode commits its position bookkeeping before the in-loop rc_encode() can suspend, and the LZMA2 history reserve is applied after the LZMA encoder filled in lz_options; (OUTPOS) rc_shift_low and rc_shift_low_dummy advance *out_pos in single steps, each behind `*out_pos == out_size`; the LZ/LZMA decoder dictionary sibling rule of C03."
        + " Round-3 rules: (WINDOW) hash-chain/binary-tree walkers stop at delta >= cyclic_size; (LIMITS) the LZMA2 chunk cut-off leaves OPTS+1 bytes; (DICTFRESH) dict->full is recomputed after dict->pos moved."
        + " LIMITS now derives the needed cut-off margin as OPTS + RC_SYMBOLS_MAX (read-ahead of one optimum run plus the output of one symbol)."
-       + ' (DRAIN) a BCJ/simple coder reports the end only after its buffer was drained; the C12 UPDATE and C02 BOUND rules are evaluated here too.',
+       + ' (DRAIN) a BCJ/simple coder reports the end only after its buffer was drained; the C12 UPDATE and C02 BOUND rules are evaluated here too.'
+       + " (CRC/READFIRST) the Index encoder's CRC32 and the re-used LZMA encoder's state (C06 rules).",
   technique="path-sensitive event-count dataflow on the CFG (exactly-once / must-precede); post-dominator must-follow; field-coverage (E-COVER) with loop-bound vs array-dimension comparison; who-may-write table; table agreement",
   ref="4/C01"),
  "C20": dict(
@@ -69,7 +72,8 @@ CLAIMED = {
        + " xzdiff's three suffix lists are identical."
        + " (STATUS) xzgrep's result accumulator is evaluated over all (res, r) pairs; xzdiff selects a decompressor for each operand from its own name and keeps stdin for a '-' operand."
        + " (STATUS decomp-failure) a failed decompressor makes the file's status >= 2 for every grep status."
-       + ' (STATUS xzdiff:status-loop, sigpipe-not-ignored).',
+       + ' (STATUS xzdiff:status-loop, sigpipe-not-ignored).'
+       + ' (QUOTE xzless:lessmetachars; STATUS xz:empty-name-is-error).',
   technique="shell AST taint and quoting-context analysis; idiom (typestate) rule on accumulator stores; case-arm coverage of the quote character; constant evaluation of the sed programs",
   ref="4/C20"),
  "C15": dict(
@@ -87,7 +91,8 @@ CLAIMED = {
        "RISC-V AUIPC pair arithmetic, IA-64 slot arithmetic, x86 prev_mask evolution as a function of all inputs. Detection predicates are evaluated by symbolic bit evaluation of the path conditions (independent of the statement shape). Also (INITCONS) now_pos / history are re-initialised on every init path."
        + " Further rules: (READFIRST) delta history/pos and BCJ buffers a coding function reads first are reset by every OK init path; IA-64 slot predicate equals opcode 5 / btype 0 on all assignments of the relevant bits; call_filter on coder->buffer does not depend on end_was_reached."
        + " (SCAN) all nine scan loops visit exactly the positions p with p + window <= size."
-       + ' (PROTO compact) the BCJ wrapper moves filtered and unfiltered positions by the same amount when it compacts its buffer.',
+       + ' (PROTO compact) the BCJ wrapper moves filtered and unfiltered positions by the same amount when it compacts its buffer.'
+       + ' (POST) delta coders transform what the next coder wrote on every way out.',
   technique="AST/CFG shape rule for direction symmetry; exhaustive finite-domain evaluation of branch predicates from the CFG; exact bit-routing abstract evaluation of shift/mask/or code vs reference tables; edge-cut must-pass",
   ref="4/C15"),
  "C19": dict(
@@ -100,7 +105,8 @@ CLAIMED = {
        "owner->group->mode->timestamps from the source; --stdout/--test imply --keep; exit status mapping. Name invertibility "
        "for all byte strings is NOT decided. Also (SUFPOS) test_suffix examines src_name[src_len - suffix_len - 1] and compares exactly the last suffix_len bytes."
        + ' (ATTR) the full permission bits are copied only when the group could be set.'
-       + ' (SUF custom-suffix-always-tested; ATTR group-compared-with-target).',
+       + ' (SUF custom-suffix-always-tested; ATTR group-compared-with-target).'
+       + ' (OPTMAP) long options map to their documented short synonyms; (ORDER) attributes are copied after the last write.',
   technique="table joins, finite-domain abstract evaluation over option combinations and all mode values, edge-cut must-pass",
   ref="4/C19"),
  "C18": dict(
@@ -113,7 +119,8 @@ CLAIMED = {
        + " is_sparse examines every word of the buffer; coder_normal success rules of C17."
        + " The final sparse hole is materialised also when decoding failed (standard output is kept)."
        + ' (SPARSE position-probe) sparse mode is enabled for stdout only after the current position was compared with the file size; (PERFILE) per-file flags are reset for every file.'
-       + ' (FMT) xz recognises exactly the .lzma files the library decodes.',
+       + ' (FMT) xz recognises exactly the .lzma files the library decodes.'
+       + ' (STATUS) as in C17.',
   technique="finite-domain path-sensitive reachability (edge/block cuts), dominance and provenance rules over call arguments",
   ref="4/C18"),
  "C17": dict(
@@ -128,7 +135,8 @@ CLAIMED = {
        + " Further rules: every probe result (is_tty, stat) that decides skipping a file is tested."
        + " (EOF) src_eof only where read() returned 0."
        + " (NOFATAL) no message_fatal() is reachable while the incomplete target is open; (EINTR) an EINTR retry on a stdio stream clears its error indicator."
-       + ' (SIG handled-signals) every termination signal xz can get while a target is open has the clean-up handler.',
+       + ' (SIG handled-signals) every termination signal xz can get while a target is open has the clean-up handler.'
+       + ' (STATUS message_error/message_warning record the status on every path).',
   technique="finite-domain path-sensitive dataflow, must-pass/dominance rules, call-graph closure, who-may-call",
   ref="4/C17"),
  "C12": dict(
@@ -142,7 +150,8 @@ CLAIMED = {
        + " get_thread hands every woken worker the cached filter chain."
        + ' (MTFLUSH) the threaded encoder reports a flush complete only when the output queue is empty and LZMA_FINISH only after the Index was encoded.'
        + " (FSM) lzma_code's transition relation (C11) is evaluated here too: a completed flush/barrier returns to ISEQ_RUN."
-       + ' (STRONG) the update functions replace the chain only after the copy succeeded (C10 rule).',
+       + ' (STRONG) the update functions replace the chain only after the copy succeeded (C10 rule).'
+       + ' (BLKOPT, CHAINEND).',
   technique="must-pass-through (edge cut) on finite-domain product graphs, dominator rules, table comparison",
   ref="4/C12"),
  "C09": dict(
@@ -160,7 +169,8 @@ CLAIMED = {
        + ' (USAGE) memconfig callbacks report the figure the limit was checked against; (TERMS) LZMA2 history reserve and the MT-encoder default limit are part of the sums compared with the limit.'
        + " (OPTPATH) every store to lzma_lz_options on an encoder's init path has a live counterpart on its memusage path."
        + ' (FREEFIRST) a cached buffer replaced because its size key changed is freed before its replacement is allocated; (NEEDED) lzma_stream_buffer_decode reports the need through *memlimit.'
-       + ' (XZ limit-by-mode) every decoding mode of xz uses --memlimit-decompress; (PENDING) lzma_memlimit_set counts a Block waiting to be started; (KEPT) a cached worker exempted from freeing is reconciled with the worker actually obtained.',
+       + ' (XZ limit-by-mode) every decoding mode of xz uses --memlimit-decompress; (PENDING) lzma_memlimit_set counts a Block waiting to be started; (KEPT) a cached worker exempted from freeing is reconciled with the worker actually obtained.'
+       + ' (SIZEKEY) as in C10.',
   technique="must-pass-through (edge cut) on finite-domain product graphs, table joins, dominance rules",
   ref="4/C09"),
  "C04": dict(
@@ -175,7 +185,8 @@ CLAIMED = {
        + " (WAIT) lost-wake-up rule of C07 on the threaded decoder; dict_get/dict_repeat sibling and DICTFRESH rules."
        + " (ALLOCSZ lower bound) a member used as the element count of a header+array allocation whose element 0 is written at once is never stored as 0."
        + " (DISTVALID) every use of a decoded match distance is dominated by the dictionary-validity test; (SEEK) rules of C13 for the file-info decoder's seek target."
-       + ' (READFIRST) no coding function reads a member that nothing in the session stored (all coder records).',
+       + ' (READFIRST) no coding function reads a member that nothing in the session stored (all coder records).'
+       + ' (NULLARITH) no pointer arithmetic on a possibly-NULL buffer; (LOCALALLOC, OPTNULL, SHA, READFIRST).',
   technique="must-availability dataflow on a finite-domain product graph, interprocedural return-code sets with slot typestate, type-agreement joins",
   ref="4/C04"),
  "C11": dict(
@@ -188,7 +199,8 @@ CLAIMED = {
        + " Further rules: lzma_index_hash_decode is called only with input available (shared with C04)."
        + " (RESTORE) after a single-call function restored *in_pos/*out_pos the position is not read again (11 sites)."
        + ' (UNINIT) every access through strm->internal in a public function is preceded by its NULL test or by lzma_strm_init().'
-       + ' (TIMEOUT) a timed-out wait of the threaded coders is reported as LZMA_TIMED_OUT.',
+       + ' (TIMEOUT) a timed-out wait of the threaded coders is reported as LZMA_TIMED_OUT.'
+       + ' (INITFAIL) a failed public initialiser leaves no old coder active; (IDX) bounds fact at every buffer access.',
   technique="exhaustive finite-domain abstract interpretation of the wrapper's CFG vs a protocol table; structural def-use rules",
   ref="4/C11"),
  "C16": dict(
@@ -201,7 +213,8 @@ CLAIMED = {
        + " Further rules: auto decoder goes to SEQ_FINISH only for .lzma; picky mode accepts exactly 2^n and 2^n+2^(n-1) (smear distance set); .lz header bytes are counted in member_size before any non-fatal return; (READFIRST) as in C06."
        + " (STALENEXT) as in C09."
        + ' (C17-FAIL) xz accepts a .lzma/raw stream only if the one-byte probe finds nothing after it.'
-       + " (XZ lzma-dict-size-set) xz's .lzma heuristic accepts the same dictionary sizes as liblzma; (ACCUM) Stream Padding length survives slicing.",
+       + " (XZ lzma-dict-size-set) xz's .lzma heuristic accepts the same dictionary sizes as liblzma; (ACCUM) Stream Padding length survives slicing."
+       + ' (ALONE no-get_check, known-size-kept; XZ rewind-unconditional).',
   technique="finite-domain abstract interpretation vs spec tables, effect rules and must-pass rules on the product graph, cross-TU table agreement",
   ref="4/C16"),
  "C03": dict(
@@ -214,7 +227,8 @@ CLAIMED = {
        + " Further rules: (BLOCK) the block_decode obligations of C05; (RESET) the probability reset rule of C01 on the decoder."
        + " (SEQLABEL) each suspension of lzma_decode stores the state whose case label it sits under; (FASTSLOW) both copies of the symbol decoder expand literal_subcoder identically; (DICTFRESH)."
        + ' (DICTFRESH) a helper that copies into the dictionary recomputes dict.full.'
-       + ' (READFIRST) decoders and filters start from what their init function stores.',
+       + ' (READFIRST) decoders and filters start from what their init function stores.'
+       + " (SHA) C14's SHA-256 structure rules.",
   technique="finite-domain abstract interpretation of decision expressions vs spec tables, guard obligations, reachability on the product graph",
   ref="4/C03"),
  "C07": dict(
@@ -240,7 +254,8 @@ CLAIMED = {
        + " Further rules: progress-transfer-atomic: a finished worker's progress moves from the per-thread to the coder totals in one critical section."
        + " (SIZEKEY) coder->block_size changes only together with the workers' input buffers; (OUTQRESET); get_progress takes one snapshot under coder->mutex."
        + " (WAITPRED) as in C07: the worker error flag is part of wait_for_work()'s predicate."
-       + ' (ERR progress-zero-before-free) a worker returning to the free list has zeroed its counters; (BOUND) as in C02.',
+       + ' (ERR progress-zero-before-free) a worker returning to the free list has zeroed its counters; (BOUND) as in C02.'
+       + " (READFIRST, SIZEKEY) coders re-used by workers start each Block from their init function's stores; size keys are final when compared.",
   technique="must-lockset dataflow over a finite-domain product graph, protected-field table, must-pass rules",
   ref="4/C08"),
  "C10": dict(
@@ -254,7 +269,8 @@ CLAIMED = {
        + " (SIZEKEY) a member that gives the allocated size of a kept buffer changes only with the buffer (7 pairs discovered from allocation sites); CACHEKEY fail-path: the key is invalidated when the re-allocation fails."
        + " (SYNCEND) every mutex/condition variable initialised for a coder is destroyed by its end function or by the joined worker."
        + ' (LOCALIDX) an index allocated by a function is freed on each of its failing paths; (LOCALOWN) lzma_raw_coder_init frees the partially built chain on failure.'
-       + ' (REOWN) on the re-use path of an init function an owned member is released before it is overwritten.',
+       + ' (REOWN) on the re-use path of an init function an owned member is released before it is overwritten.'
+       + ' (LOCALALLOC, LOCALCODER, STRM fail-frees, REWIND).',
   technique="ownership/effect dataflow over clang CFGs, field-coverage joins over record layouts, unused-result rule on resolved callees",
   ref="4/C10"),
  "C13": dict(
@@ -279,7 +295,8 @@ CLAIMED = {
        "padding bytes compared on consumption; LZMA_STREAM_END only from terminal states. A deleted or weakened check is "
        "reported with the success exit it leaves unguarded. Does NOT decide that payload corruption is caught by the Check. Also: sizes from the Block Header are compared before they are overwritten with the counted sizes; each decoder flag member is derived from the flag constant of the same name; Backward Size is expanded in 64-bit arithmetic."
        + " Further rules: (ACCUM) counters a decoder state tests accumulate across calls; (INITCONS) a re-used container decoder starts like a fresh one."
-       + ' (IGNCHK) lzma_block_header_decode resets ignore_check on every OK path.',
+       + ' (IGNCHK) lzma_block_header_decode resets ignore_check on every OK path.'
+       + ' (SHA; XZSTATUS: message_error records the exit status on every path).',
   technique="must-pass-through (edge cut) on a finite-domain path-sensitive product graph with resume edges; interprocedural return-code sets",
   ref="4/C05"),
  "C06": dict(
@@ -293,7 +310,8 @@ CLAIMED = {
        + " (OUTGUARD) a decoder's state loop is not guarded by output space when some state needs none."
        + ' (ENCRESET) lzma_lzma_encoder_reset() stores to every counter that triggers recomputation of a price table (the tables are caches of the probabilities).'
        + ' (EMITSTATE) rc_shift_low carries its loop state in rc members only; (CRC field-not-hashed) bytes of the CRC32 field are never hashed.'
-       + ' (STRMAP) the textual form of a filter chain covers the whole option map; MEMLIMIT_ERROR returns keep the running CRC32 consistent.',
+       + ' (STRMAP) the textual form of a filter chain covers the whole option map; MEMLIMIT_ERROR returns keep the running CRC32 consistent.'
+       + ' (SHA/PATH) the Check value does not depend on how update calls slice the data.',
   technique="liveness + reaching definitions over resume labels (clang CFG), finite-domain product-graph dataflow, call-graph reachability",
   ref="4/C06"),
 }
